@@ -53,6 +53,9 @@ Fixpoint be_val (l : list N) (acc : N) : N :=
   end.
 
 (* Python slicing data[a:a+n] (truncating) and indexing data[a] (raising) *)
+(* len(l) < k, looking at no more than k elements (the decoders run on long lists) *)
+Definition shorter {A} (l : list A) (k : nat) : bool := (length (firstn k l) <? k)%nat.
+
 Definition slice (l : list N) (a n : nat) : list N := firstn n (skipn a l).
 Definition index (l : list N) (a : nat) : res N :=
   match nth_error l a with Some b => Ok b | None => Err EIndex end.
